@@ -1067,8 +1067,8 @@ Section Passes.
     end.
 
   (* since /repo e99e57c the nodes of one <library_nodes> end up in document order, whatever pass loaded them *)
-  Definition load_library_nodes (en : env) (libnode : et) : outcome (env * list nview) :=
-    let nodes := efindall a_node libnode in
+  (* since /repo 43677d4 the <node> children of ALL <library_nodes> elements form one pool *)
+  Definition load_library_nodes (en : env) (nodes : list et) : outcome (env * list nview) :=
     obind (lib_pass en (combine (seq 0 (length nodes)) nodes) [] [] false) (fun r =>
     let '(en', loaded, pending, progress) := r in
     obind (lib_retry (S (length pending)) en' loaded pending progress) (fun r2 =>
@@ -1420,13 +1420,6 @@ Definition Vdoc (d : doc) : V :=
   Vl [d_asset d; Vl (d_images d); Vl (d_effects d); Vl (d_materials d); Vl (d_animations d); Vl (d_geometries d); Vl (d_controllers d);
       Vl (d_lights d); Vl (d_cameras d); Vl (d_nodes d); Vl (d_scenes d); Vopt Vn (d_scene d)].
 
-Fixpoint lib_nodes_all (nl : env -> et -> outcome nview) (en : env) (libs : list et) (acc : list nview)
-  : outcome (env * list nview) :=
-  match libs with
-  | [] => Ok (en, acc)
-  | l :: r => obind (load_library_nodes nl en l) (fun p => lib_nodes_all nl (fst p) r (acc ++ snd p))
-  end.
-
 Section Document.
   Variable numtab : list N.
   (* MODEL or SPEC versions of the three interesting loaders *)
@@ -1457,7 +1450,7 @@ Section Document.
     let en := mkEnv numtab (map (fun g => (Some (g_id g), g_uid g)) geoms)
                     (map (fun c => (fst (fst c), snd (fst c))) ctrls)
                     (map vid lights) (map vid cams) (map (fun m => (fst (fst m), snd (fst m))) mats) [] [] in
-    obind (lib_nodes_all node_loader en (efindall a_library_nodes root) []) (fun ln =>
+    obind (load_library_nodes node_loader en (flat_map (efindall a_node) (efindall a_library_nodes root))) (fun ln =>
     obind (omapM (load_scene node_loader (fst ln)) (lib_elems a_library_visual_scenes a_visual_scene root)) (fun scenes =>
     obind (match efind_path [a_scene; a_instance_visual_scene] root with
            | None => Ok None
